@@ -85,9 +85,21 @@ def gate(ctx: Ctx) -> None:
         ctx.check(not _mentions(of.node, "is_overdue"), "R-C12-RETRIEVABLE", of, f"in-memory {other}: no overdue test", "expired delayed/dead messages stay retrievable",
                   f"in-memory {other} applies the overdue test to a non-NORMAL category", instance=f"in-memory {other}")
     disp = ctx.func(f"{C.INMEM_CONS}.__init__")
+    want_map = {"NORMAL": "__consume_normal", "DELAYED": "__consume_delayed", "DEAD": "__consume_dead"}
     d = [n for n in ast.walk(disp.node) if isinstance(n, ast.Dict) and len(n.keys) == 3]
-    ok = len(d) == 1 and {dotted(k).split(".")[-1]: dotted(v).split(".")[-1] for k, v in zip(d[0].keys, d[0].values)} == \
-        {"NORMAL": "__consume_normal", "DELAYED": "__consume_delayed", "DEAD": "__consume_dead"}
+    ok = len(d) == 1 and {dotted(k).split(".")[-1]: dotted(v).split(".")[-1] for k, v in zip(d[0].keys, d[0].values)} == want_map
+    if not d:
+        # the same table written as a selector method: `if category == MessageCategory.X: return self.__consume_x`
+        for sel in ctx.prog.cls(C.INMEM_CONS).methods.values():
+            rets_ = [r for r in C.own_returns(sel) if isinstance(r.value, ast.Attribute) and dotted(r.value.value) == "self" and r.value.attr in want_map.values()]
+            if len(rets_) == 3:
+                gs = ctx.cfg(sel)
+                got_map = {}
+                for cat in want_map:
+                    rr = flow.reach_under(gs, category_env(cat == "NORMAL", cat), flow.NORMAL_KINDS)
+                    got_map[cat] = sorted({n.ast.value.attr for n in gs.nodes if n.kind == "return" and n.id in rr and isinstance(n.ast.value, ast.Attribute)})
+                ok = got_map == {k: [v] for k, v in want_map.items()}
+                disp = sel
     ctx.check(ok, "R-C12-RETRIEVABLE", disp, "in-memory category dispatch", "NORMAL/DELAYED/DEAD -> their own readers", "in-memory category dispatch table changed", instance="in-memory dispatch")
     # ---------------- redis
     f = ctx.func(f"{C.REDIS_CONS}.consume_or_none")
